@@ -8,7 +8,8 @@
 //
 // stdin : <seed> <feat> <nbody> <nmesh> <ntex> <flags> <reps>      flags: 1 = length ranges, 2 = hfield,
 //         4 = builtin meshes, 8 = start with usethread off, 16 = delayed actuators (history), 32 = muscle rig (length ranges of
-//         the muscles go through the pool under the default LRopt.mode), 64 = 2..4 extra mocap bodies, 128 = extras rig (spatial tendons with site / sphere /
+//         the muscles go through the pool under the default LRopt.mode), 64 = 2..4 extra mocap bodies, 256 = frames rig (nested frames, alternative orientations,
+//         elements attached to inner frames), 128 = extras rig (spatial tendons with site / sphere /
 //         cylinder / pulley wraps, tendon actuator and sensors, pair, exclude, numeric, text, tuple, camera, light)
 // stdout: CASE i / lines "CMP <what> <0|1> <detail>" and "STATE <what> <0|1> <detail>" / END <OK|DIFF|REJECTED|REJDIFF>
 //         (REJ <what> <0|1> <error>: the spec is rejected; the error text must be identical in every variant)
@@ -74,6 +75,57 @@ static void count_cmp(const char* what, const mjSpec* a, const mjSpec* b) {
   }
   printf("CNT %s %d %d %s\n", what, bad.empty() ? 1 : 0, tot, bad.c_str());
   if (!bad.empty()) g_ndiff++;
+}
+
+// Independent placement oracle for the quaternion-only frame chain "fq0_*" of the frames rig: the pose of site fs0_lv and
+// geom fg0_lv in their body is  T(fq0_0) o ... o T(fq0_lv) o T(element)  with the poses as written into the spec.  The
+// composition is recomputed here from the spec values (own quaternion arithmetic) and compared with the compiled model.
+static void qmul(const double a[4], const double b[4], double r[4]) {
+  r[0] = a[0]*b[0] - a[1]*b[1] - a[2]*b[2] - a[3]*b[3]; r[1] = a[0]*b[1] + a[1]*b[0] + a[2]*b[3] - a[3]*b[2];
+  r[2] = a[0]*b[2] - a[1]*b[3] + a[2]*b[0] + a[3]*b[1]; r[3] = a[0]*b[3] + a[1]*b[2] - a[2]*b[1] + a[3]*b[0];
+}
+static void qrot(const double q[4], const double v[3], double r[3]) {
+  double p[4] = {0, v[0], v[1], v[2]}, c[4] = {q[0], -q[1], -q[2], -q[3]}, t[4], u[4];
+  qmul(q, p, t); qmul(t, c, u); r[0] = u[1]; r[1] = u[2]; r[2] = u[3];
+}
+static void frame_oracle(const char* what, mjSpec* s, const mjModel* m) {
+  double ap[3] = {0, 0, 0}, aq[4] = {1, 0, 0, 0};
+  int nchk = 0; double worst = 0; std::string where;
+  for (int lv = 0; lv < 4; lv++) {
+    char nm[32]; snprintf(nm, sizeof(nm), "fq0_%d", lv);
+    mjsElement* fe = mjs_findElement(s, mjOBJ_FRAME, nm);
+    if (!fe) break;
+    mjsFrame* fr = mjs_asFrame(fe);
+    double rp[3], nq[4], qn[4]; double n = 0;
+    for (int i = 0; i < 4; i++) n += fr->quat[i] * fr->quat[i];
+    n = sqrt(n); for (int i = 0; i < 4; i++) qn[i] = fr->quat[i] / n;
+    qrot(aq, fr->pos, rp); for (int i = 0; i < 3; i++) ap[i] += rp[i];
+    qmul(aq, qn, nq); for (int i = 0; i < 4; i++) aq[i] = nq[i];
+    for (int kind = 0; kind < 2; kind++) {
+      snprintf(nm, sizeof(nm), kind ? "fg0_%d" : "fs0_%d", lv);
+      int id = mj_name2id(m, kind ? mjOBJ_GEOM : mjOBJ_SITE, nm);
+      mjsElement* ee = mjs_findElement(s, kind ? mjOBJ_GEOM : mjOBJ_SITE, nm);
+      if (id < 0 || !ee) continue;
+      const double* epos = kind ? mjs_asGeom(ee)->pos : mjs_asSite(ee)->pos;
+      const double* equat = kind ? mjs_asGeom(ee)->quat : mjs_asSite(ee)->quat;
+      double en[4], e2 = 0; for (int i = 0; i < 4; i++) e2 += equat[i] * equat[i];
+      e2 = sqrt(e2); for (int i = 0; i < 4; i++) en[i] = equat[i] / e2;
+      double xp[3], xq[4], r[3]; qrot(aq, epos, r); for (int i = 0; i < 3; i++) xp[i] = ap[i] + r[i];
+      qmul(aq, en, xq);
+      const mjtNum* mp = kind ? m->geom_pos + 3 * id : m->site_pos + 3 * id;
+      const mjtNum* mq = kind ? m->geom_quat + 4 * id : m->site_quat + 4 * id;
+      double dp = 0, scale = 1, dq1 = 0, dq2 = 0;
+      for (int i = 0; i < 3; i++) { dp = fmax(dp, fabs(mp[i] - xp[i])); scale = fmax(scale, fabs(xp[i])); }
+      for (int i = 0; i < 4; i++) { dq1 = fmax(dq1, fabs(mq[i] - xq[i])); dq2 = fmax(dq2, fabs(mq[i] + xq[i])); }
+      double err = fmax(dp / scale, fmin(dq1, dq2));
+      nchk++;
+      if (err > worst) { worst = err; where = nm; }
+    }
+  }
+  if (!nchk) return;
+  int ok = worst < 1e-9;
+  printf("FRM %s %d %d worst %.3g at %s\n", what, ok, nchk, worst, where.c_str());
+  if (!ok) g_ndiff++;
 }
 
 static void sphere_band(std::vector<float>& v, std::vector<int>& f, int nlat, int nlon, double r, int closed) {
@@ -167,6 +219,59 @@ static mjSpec* make_spec(uint64_t seed, unsigned feat, int nbody, int nmesh, int
     mjs_setFloat(h->userdata, e.data(), (int)e.size());
     mjsGeom* g = mjs_addGeom(world, NULL); mjs_setName(g->element, "ghf");
     g->type = mjGEOM_HFIELD; mjs_setString(g->hfieldname, "hf"); g->pos[0] = 3;
+  }
+  if (flags & 256) {   // frames rig: chains of nested frames (2..3 levels) in the world and in a moving body, every frame with a
+    // non-identity pose, orientations given as quaternion or through an alternative (euler, axisangle, xyaxes, zaxis), and
+    // geoms, sites, bodies, cameras and lights attached to inner frames.  The first chain ("fq") uses quaternions only
+    // and carries named sites/geoms whose compiled pose the driver recomputes independently (frame_oracle()).
+    auto rand_alt = [&](mjsOrientation* alt) {
+      int k = mjg_int(&R, 5);
+      if (k == 1) { alt->type = mjORIENTATION_AXISANGLE; alt->axisangle[0] = mjg_range(&R, -1, 1); alt->axisangle[1] = mjg_range(&R, -1, 1);
+                    alt->axisangle[2] = 1; alt->axisangle[3] = mjg_range(&R, -170, 170); }
+      else if (k == 2) { alt->type = mjORIENTATION_EULER; for (int i = 0; i < 3; i++) alt->euler[i] = mjg_range(&R, -80, 80); }
+      else if (k == 3) { alt->type = mjORIENTATION_XYAXES; alt->xyaxes[0] = 1; alt->xyaxes[1] = mjg_range(&R, -0.5, 0.5); alt->xyaxes[2] = mjg_range(&R, -0.5, 0.5);
+                         alt->xyaxes[3] = mjg_range(&R, -0.5, 0.5); alt->xyaxes[4] = 1; alt->xyaxes[5] = mjg_range(&R, -0.5, 0.5); }
+      else if (k == 4) { alt->type = mjORIENTATION_ZAXIS; alt->zaxis[0] = mjg_range(&R, -1, 1); alt->zaxis[1] = mjg_range(&R, -1, 1); alt->zaxis[2] = 0.5; }
+      return k;
+    };
+    mjsBody* host[2] = {world, mjs_findBody(s, "b0")};
+    int nchain = 2 + mjg_int(&R, 2);
+    for (int ch = 0; ch < nchain; ch++) {
+      mjsBody* hb = host[ch % 2] ? host[ch % 2] : world;
+      int depth = 2 + mjg_int(&R, 2);
+      mjsFrame* parent = NULL;
+      for (int lv = 0; lv < depth; lv++) {
+        mjsFrame* fr = mjs_addFrame(hb, parent);
+        snprintf(nm, sizeof(nm), "%s%d_%d", ch == 0 ? "fq" : "fa", ch, lv); mjs_setName(fr->element, nm);
+        for (int i = 0; i < 3; i++) fr->pos[i] = mjg_range(&R, -0.3, 0.3) + (i == 0 ? -12 - 2 * ch : 0);
+        if (lv > 0) fr->pos[0] += 12 + 2 * ch;
+        mjg_quat(&R, fr->quat);
+        if (ch != 0) rand_alt(&fr->alt);
+        // elements attached to this level
+        mjsSite* si = mjs_addSite(hb, NULL); snprintf(nm, sizeof(nm), "fs%d_%d", ch, lv); mjs_setName(si->element, nm);
+        for (int i = 0; i < 3; i++) si->pos[i] = mjg_range(&R, -0.2, 0.2);
+        mjg_quat(&R, si->quat); if (ch != 0) rand_alt(&si->alt);
+        mjs_setFrame(si->element, fr);
+        mjsGeom* g = mjs_addGeom(hb, NULL); snprintf(nm, sizeof(nm), "fg%d_%d", ch, lv); mjs_setName(g->element, nm);
+        g->type = mjGEOM_SPHERE; g->size[0] = 0.02 + 0.01 * lv; g->contype = 0; g->conaffinity = 0;
+        for (int i = 0; i < 3; i++) g->pos[i] = mjg_range(&R, -0.2, 0.2);
+        mjg_quat(&R, g->quat); if (ch != 0) rand_alt(&g->alt);
+        mjs_setFrame(g->element, fr);
+        if (lv == depth - 1) {
+          mjsBody* fb = mjs_addBody(hb, NULL); snprintf(nm, sizeof(nm), "fbody%d", ch); mjs_setName(fb->element, nm);
+          for (int i = 0; i < 3; i++) fb->pos[i] = mjg_range(&R, -0.2, 0.2);
+          mjg_quat(&R, fb->quat); if (ch != 0) rand_alt(&fb->alt);
+          mjsGeom* bg = mjs_addGeom(fb, NULL); bg->type = mjGEOM_BOX; bg->size[0] = 0.03; bg->size[1] = 0.02; bg->size[2] = 0.01; bg->contype = 0; bg->conaffinity = 0;
+          if (mjg_chance(&R, 0.5)) { mjsJoint* fj = mjs_addJoint(fb, NULL); snprintf(nm, sizeof(nm), "fj%d", ch); mjs_setName(fj->element, nm); fj->type = mjJNT_HINGE; }
+          mjs_setFrame(fb->element, fr);
+          mjsCamera* cm = mjs_addCamera(hb, NULL); snprintf(nm, sizeof(nm), "fcam%d", ch); mjs_setName(cm->element, nm);
+          cm->pos[0] = mjg_range(&R, -0.2, 0.2); mjg_quat(&R, cm->quat); mjs_setFrame(cm->element, fr);
+          mjsLight* li = mjs_addLight(hb, NULL); snprintf(nm, sizeof(nm), "flight%d", ch); mjs_setName(li->element, nm);
+          li->pos[1] = mjg_range(&R, -0.2, 0.2); li->dir[0] = mjg_range(&R, -1, 1); li->dir[2] = -1; mjs_setFrame(li->element, fr);
+        }
+        parent = fr;
+      }
+    }
   }
   if (flags & 128) {   // "extras" rig: the element kinds mjgen does not make -- spatial tendons wrapping sites, a SPHERE and a
     // CYLINDER geom (with a side site) and a pulley, an actuator and sensors on them, a contact pair, an exclude, custom
@@ -329,9 +434,11 @@ static void run_case(uint64_t seed, unsigned feat, int nbody, int nmesh, int nte
   printf("INFO nmesh %d ntex %d nhfield %d nmeshvert %d ntexdata %lld nu %d nq %d bytes %zu usethread %d\n", (int)m1->nmesh, (int)m1->ntex,
          (int)m1->nhfield, (int)m1->nmeshvert, (long long)m1->ntexdata, (int)m1->nu, (int)m1->nq, ref.size(), (int)s->compiler.usethread);
   if (reps < 0) { mj_deleteModel(m1); mj_deleteSpec(s); printf("END OK\n"); return; }
+  frame_oracle("first", s, m1);
   // compile the same spec again
   mjModel* m2 = mj_compile(s, NULL);
   cmp("twice", m1, ref, m2);
+  if (m2) frame_oracle("twice", s, m2);
   if (m2) mj_deleteModel(m2);
   // a deep copy made BEFORE the spec was ever compiled (a second, identically generated spec)
   {
@@ -348,6 +455,7 @@ static void run_case(uint64_t seed, unsigned feat, int nbody, int nmesh, int nte
   else {
     mjModel* m3 = mj_compile(s2, NULL);
     cmp("copyspec", m1, ref, m3);
+    if (m3) frame_oracle("copyspec", s2, m3);
     if (m3) {
       // and a copy of the copy, compiled after the first copy was compiled
       mjSpec* s3 = mj_copySpec(s2);
@@ -401,6 +509,7 @@ static void run_case(uint64_t seed, unsigned feat, int nbody, int nmesh, int nte
     if (rc != 0) { printf("CMP recompile 0 rc=%d %s\n", rc, mjs_getError(s)); g_ndiff++; }
     else {
       cmp("recompile", m1, ref, m1);
+      frame_oracle("recompile", s, m1);
       std::vector<unsigned char> rb = save(m1);
       if (rb.size() != ref.size() || memcmp(rb.data(), ref.data(), rb.size())) { /* counted by cmp above */ }
       int k = 0;
